@@ -35,6 +35,10 @@ chk("C04",
     "Bounded-exhaustive model checking of ExprLexer/ExprParser: every token sequence of length <=5 (thorough 6) over a 22-token alphabet with all whitespace interleavings for short sequences, every character string of length <=5 (thorough 6) over the 26 lexically relevant characters, and a numeric sub-enumeration up to the 32/64-bit boundaries, each compared with a reference tokeniser and grammar written from the documented language (accept/reject, normalised tree = precedence, literal values, lower-casing, end offset, single error with offset inside the text); short sequences also through Linter.Lint in run: and bare if: positions.",
     "Sentences longer than the bounds are not explored (the 'randomly beyond the bound' part of the quantifier is not claimed); token classes are represented by one spelling each in the token enumeration; appendix-A don't-care classes are not compared." + OVERLAY_NOTE,
     "exhaustive enumeration of all token sequences / character strings up to a length bound vs reference grammar")
+chk("C06",
+    "Bounded-exhaustive differential model checking of the real ExprSemanticsChecker: accessor chains of length <=3 over {.y, .z, .*, [0], ['y']} on <ctx>.x and chains over {.x, ['x'], .*, .y, [0]} on the context itself, each in 26 contexts (unary/binary operators, every argument slot of contains/startsWith/endsWith/format/join/toJSON/fromJSON/hashFiles, as index, indexed, filtered) x contexts {matrix, steps, needs, inputs, secrets, jobs} typed {x: T} for every type term T of depth <=2 (thorough 3) over {null, number, bool, string, any, array, strict object, open object, map} x every single loosening (sub-term -> any, strict -> open); oracle = the property's own relation: accepted under G implies accepted under the loosened G'. End-to-end: literal matrix rows / whole matrix / include replaced by fromJSON(...), a known action by an unknown one, declared job outputs by a reusable-workflow call, x 28+ consumer expressions through Linter.Lint.",
+    "Environments vary one property of one context at a time; errors that an earlier error of the stricter environment masked are not counted as introduced (the statement speaks of accepted expressions)." + OVERLAY_NOTE,
+    "exhaustive enumeration of (expression, typing environment, loosening) with a relational (differential) oracle")
 chk("C07",
     "Complete enumeration of a placement product against an absolute position oracle: 12 expression constructs (lexer, parser, semantic at first and inner token, untrusted input, availability, bare if:) x extra indentation 0-4 x lines above 0-3 x block/flow style x plain/single/double quoting x prefix text 0-5 x preceding placeholders 0-2 x spaces after ${{ 0-3 (about 65k workflows), plus key (unexpected, duplicate), enum/shell/permission value and glob-character constructs x placements; the generator records the line:column of the offending token and the real Linter's diagnostic must carry exactly it (shift-invariance follows since all shifts are enumerated). Also: every non-YAML-level diagnostic over positions x fragments of the seeds has 1 <= line <= #lines and column >= 1.",
     "One-line ASCII scalars without escape sequences only (as the property states); constructs are a fixed catalogue of 12 + 9." + OVERLAY_NOTE,
